@@ -1965,7 +1965,6 @@ class GAM(Core, MetaTermMixin):
         # check if model fitted
         if not self._is_fitted:
             self._validate_params()
-            self._validate_data_dep_params(X)
 
         y = check_y(y, self.link, self.distribution, verbose=self.verbose)
         X = check_X(X, verbose=self.verbose)
@@ -1979,6 +1978,9 @@ class GAM(Core, MetaTermMixin):
             check_lengths(y, weights)
         else:
             weights = np.ones_like(y).astype('float64')
+
+        if not self._is_fitted:
+            self._validate_data_dep_params(X)
 
         # validate objective
         if objective not in ['auto', 'GCV', 'UBRE', 'AIC', 'AICc']:
